@@ -83,6 +83,10 @@ static int simd_sse(const char *f, reg_t *a, reg_t *b, reg_t *m)
 /* raw 128-bit intrinsics; returns the number of result bytes in r (0 = unknown) */
 static int intr_sse(const char *f, int imm, reg_t *a, reg_t *b, reg_t *m, reg_t *r)
 {
+#ifdef C20_NO_INTR   /* mutation sweeps of the helper headers: skip the (slow to compile) intrinsic tables */
+  (void) f; return 0;
+#else
+
   int32_t iv; int i;
   if (IS("_mm_srli_si128")) {
 #define F1(i) r->i128 = _mm_srli_si128(a->i128, i)
@@ -128,6 +132,7 @@ static int intr_sse(const char *f, int imm, reg_t *a, reg_t *b, reg_t *m, reg_t 
     for (i = 0; i < 16; i += 4) { uint32_t u; memcpy(&u, r->b + i, 4); u = canon_nan(u); memcpy(r->b + i, &u, 4); }
     return 16; }
   return 0;
+#endif
 }
 
 /* ------------------------------------------------------------------ AVX2 (256-bit) */
@@ -149,6 +154,10 @@ static int simd_avx(const char *f, reg_t *a, reg_t *b)
 }
 static int intr_avx(const char *f, int imm, reg_t *a, reg_t *b, reg_t *r)
 {
+#ifdef C20_NO_INTR   /* mutation sweeps of the helper headers: skip the (slow to compile) intrinsic tables */
+  (void) f; return 0;
+#else
+
   int32_t iv; int i;
   if (IS("_mm256_srli_si256")) {
 #define F3(i) r->i256 = _mm256_srli_si256(a->i256, i)
@@ -176,6 +185,7 @@ static int intr_avx(const char *f, int imm, reg_t *a, reg_t *b, reg_t *r)
     for (i = 0; i < 32; i += 4) { uint32_t u; memcpy(&u, r->b + i, 4); u = canon_nan(u); memcpy(r->b + i, &u, 4); }
     return 32; }
   return 0;
+#endif
 }
 #pragma GCC pop_options
 
@@ -197,6 +207,10 @@ static int simd_avx512(const char *f, reg_t *a, reg_t *b)
 }
 static int intr_avx512(const char *f, int imm, unsigned kmask, reg_t *a, reg_t *b, reg_t *r)
 {
+#ifdef C20_NO_INTR   /* mutation sweeps of the helper headers: skip the (slow to compile) intrinsic tables */
+  (void) f; return 0;
+#else
+
   int i;
   if (IS("_mm512_shuffle_ps")) {
 #define F9(i) r->f512 = _mm512_shuffle_ps(a->f512, b->f512, i)
@@ -218,6 +232,7 @@ static int intr_avx512(const char *f, int imm, unsigned kmask, reg_t *a, reg_t *
     for (i = 0; i < 64; i += 4) { uint32_t u; memcpy(&u, r->b + i, 4); u = canon_nan(u); memcpy(r->b + i, &u, 4); }
     return 64; }
   return 0;
+#endif
 }
 #pragma GCC pop_options
 
@@ -484,8 +499,71 @@ static void op_vec(void)
     else if (!strcmp(op, "Add"))      { esl_vec_LAdd(x, y, n); h_out("ok %s", h_hex(x, 8*n)); }
     else if (!strcmp(op, "AddScaled")){ esl_vec_LAddScaled(x, y, h_argi("k", 1), n); h_out("ok %s", h_hex(x, 8*n)); }
     else h_out("bad-op");
+  } else if (T == 'W' && !strcmp(op, "Copy")) {
+    int16_t *x = (int16_t *) xb, *r; n = nx / 2; r = malloc(2*n + 2); esl_vec_WCopy(x, n, r); h_out("ok %s", h_hex(r, 2*n)); free(r);
+  } else if (T == 'B' && !strcmp(op, "Copy")) {
+    int8_t *x = (int8_t *) xb, *r; n = nx; r = malloc(n + 1); esl_vec_BCopy(x, n, r); h_out("ok %s", h_hex(r, n)); free(r);
   } else h_out("bad-op");
   DONE;
+}
+
+/* ------------------------------------------------------------------ matrices (esl_matrixops.c) */
+#define MAT_OPS(T, ctype, X, outvec)                                                                              \
+  if (Tc == X) {                                                                                                    \
+    ctype *x = (ctype *) xb; int64_t n = nx / (int64_t) sizeof(ctype); ctype **A, **B; int i, j;                    \
+    if (n != (int64_t) M * N) { h_out("bad-op"); free(xb); return; }                                                \
+    A = esl_mat_##T##Create(M, N);                                                                                  \
+    if (!strcmp(op, "Rows"))        { for (i = 0; i < M; i++) for (j = 0; j < N; j++) A[i][j] = x[i*N+j]; outvec(A[0], n); } \
+    else if (!strcmp(op, "Clone"))  { memcpy(A[0], x, sizeof(ctype)*n); B = esl_mat_##T##Clone(A, M, N);            \
+                                      for (i = 0; i < M; i++) for (j = 0; j < N; j++) x[i*N+j] = B[i][j]; outvec(x, n); esl_mat_##T##Destroy(B); } \
+    else if (!strcmp(op, "Copy"))   { memcpy(A[0], x, sizeof(ctype)*n); B = esl_mat_##T##Create(M, N); esl_mat_##T##Copy(A, M, N, B); \
+                                      for (i = 0; i < M; i++) for (j = 0; j < N; j++) x[i*N+j] = B[i][j]; outvec(x, n); esl_mat_##T##Destroy(B); } \
+    else if (!strcmp(op, "GrowTo")) { ctype *keep = malloc(sizeof(ctype) * (size_t) M2 * N2 + 8); int64_t k, keepn = n < (int64_t) M2*N2 ? n : (int64_t) M2*N2; \
+                                      memcpy(A[0], x, sizeof(ctype)*n); esl_mat_##T##GrowTo(&A, M2, N2);            \
+                                      for (k = 0; k < keepn; k++) keep[k] = A[0][k];                                \
+                                      for (i = 0; i < M2; i++) for (j = 0; j < N2; j++) A[i][j] = (ctype)((i*N2+j) % 100); \
+                                      for (k = 0; k < (int64_t) M2*N2; k++) if (A[0][k] != (ctype)(k % 100)) break;  \
+                                      h_out("ok kept=%s rows=%s", h_hex(keep, (int64_t) sizeof(ctype)*keepn), k == (int64_t) M2*N2 ? "rowmajor" : "BROKEN"); free(keep); } \
+    else h_out("bad-op");                                                                                           \
+    esl_mat_##T##Destroy(A); free(xb); return;                                                                      \
+  }
+static void out_ivec(int *v, int64_t n) { h_out("ok %s", h_hex(v, 4*n)); }
+static void out_cvec(char *v, int64_t n) { h_out("ok %s", h_hex(v, n)); }
+
+static void op_mat(void)
+{
+  const char *full = h_arg("op"), *op; char Tc; int M = (int) h_argi("m", 1), N = (int) h_argi("n", 1), M2 = (int) h_argi("m2", 1), N2 = (int) h_argi("n2", 1);
+  int64_t nx = 0; unsigned char *xb = NULL;
+  if (!full || M < 1 || N < 1 || M2 < 1 || N2 < 1) { h_out("bad-op"); return; }
+  Tc = full[0]; op = full + 1;
+  if (!strcmp(op, "Sizeof")) {
+    size_t z = Tc == 'D' ? esl_mat_DSizeof(M, N) : Tc == 'F' ? esl_mat_FSizeof(M, N) : Tc == 'I' ? esl_mat_ISizeof(M, N) : esl_mat_CSizeof(M, N);
+    h_out("ok %zu", z); return;
+  }
+  if (h_arg("x")) xb = h_unhex(h_arg("x"), &nx);
+  if (!xb) { h_out("bad-op"); return; }
+  if (Tc == 'D' && !strcmp(op, "Set")) { double **A = esl_mat_DCreate(M, N); esl_mat_DSet(A, M, N, h_argbits("s")); out_dvec(A[0], (int64_t) M*N); esl_mat_DDestroy(A); free(xb); return; }
+  if (Tc == 'F' && !strcmp(op, "Set")) { float **A = esl_mat_FCreate(M, N); uint32_t w = (uint32_t) strtoull(h_arg("s") ? h_arg("s") : "0", NULL, 16); float sf; memcpy(&sf, &w, 4); esl_mat_FSet(A, M, N, sf); out_fvec(A[0], (int64_t) M*N); esl_mat_FDestroy(A); free(xb); return; }
+  if (Tc == 'I' && !strcmp(op, "Set")) { int **A = esl_mat_ICreate(M, N); esl_mat_ISet(A, M, N, (int) h_argi("k", 1)); out_ivec(A[0], (int64_t) M*N); esl_mat_IDestroy(A); free(xb); return; }
+  MAT_OPS(D, double, 'D', out_dvec)
+  MAT_OPS(F, float,  'F', out_fvec)
+  MAT_OPS(I, int,    'I', out_ivec)
+  if (Tc == 'C') {            /* char matrices have Create/GrowTo/Sizeof/Destroy only */
+    char *x = (char *) xb; char **A; int i, j; int64_t k, n = nx;
+    if (n != (int64_t) M * N) { h_out("bad-op"); free(xb); return; }
+    A = esl_mat_CCreate(M, N);
+    if (!strcmp(op, "Rows")) { for (i = 0; i < M; i++) for (j = 0; j < N; j++) A[i][j] = x[i*N+j]; out_cvec(A[0], n); }
+    else if (!strcmp(op, "GrowTo")) {
+      char *keep = malloc((size_t) M2 * N2 + 8); int64_t keepn = n < (int64_t) M2*N2 ? n : (int64_t) M2*N2;
+      memcpy(A[0], x, n); esl_mat_CGrowTo(&A, M2, N2);
+      for (k = 0; k < keepn; k++) keep[k] = A[0][k];
+      for (i = 0; i < M2; i++) for (j = 0; j < N2; j++) A[i][j] = (char)((i*N2+j) % 100);
+      for (k = 0; k < (int64_t) M2*N2; k++) if (A[0][k] != (char)(k % 100)) break;
+      h_out("ok kept=%s rows=%s", h_hex(keep, keepn), k == (int64_t) M2*N2 ? "rowmajor" : "BROKEN"); free(keep);
+    } else h_out("bad-op");
+    esl_mat_CDestroy(A); free(xb); return;
+  }
+  h_out("bad-op"); free(xb);
 }
 
 static void h_op(void)
@@ -499,6 +577,7 @@ static void h_op(void)
   else if (!strcmp(op, "expf"))  op_logexp(0);
   else if (!strcmp(op, "sweep")) op_sweep();
   else if (!strcmp(op, "vec"))   op_vec();
+  else if (!strcmp(op, "mat"))   op_mat();
   else h_out("bad-op");
 }
 
